@@ -1,2 +1,3 @@
 pub mod gdsgen;
+pub mod lefgen;
 pub mod shapes;
